@@ -16,6 +16,9 @@ pub enum Dev {
     Extend(u8),
     /// JSON only: the hex string of point `pos` made short / long / odd / non-hex
     JsonHex { pos: usize, kind: u8 },
+    /// JSON only: the hex string of point `pos` := the first `bytes` bytes of the point (`identity` false) or of
+    /// the identity encoding c0 00 .. 00 (`identity` true): a truncated point must never be accepted
+    JsonPrefix { pos: usize, bytes: usize, identity: bool },
 }
 
 #[derive(Clone, Debug, PartialEq, Eq, Hash, Serialize, Deserialize)]
@@ -220,6 +223,12 @@ impl Model for M16 {
                 for kind in 0..4u8 {
                     a.push(Dev::JsonHex { pos, kind });
                 }
+                for bytes in 0..p.len() {
+                    a.push(Dev::JsonPrefix { pos, bytes, identity: false });
+                    if bytes >= 1 && (bytes <= 3 || bytes % 16 == 0 || bytes + 2 >= p.len()) {
+                        a.push(Dev::JsonPrefix { pos, bytes, identity: true });
+                    }
+                }
             }
         }
         for (pos, _) in e.scalars_of(0).iter().enumerate() {
@@ -298,6 +307,20 @@ impl Model for M16 {
                     _ => format!("zz{}", &hx[2..]),
                 };
                 cls = format!("json-hex:{}", ["short", "long", "odd", "non-hex"][*kind as usize]);
+                let txt = String::from_utf8(enc.clone()).unwrap();
+                if !txt.contains(&hx) {
+                    panic!("cannot locate point #{} in the JSON encoding of {}", pos, tn);
+                }
+                input = txt.replacen(&hx, &with, 1).into_bytes();
+                must_reject = true;
+            }
+            Some(Dev::JsonPrefix { pos, bytes, identity }) => {
+                let p = &e.points_of(0)[*pos];
+                let hx = hex::encode(p);
+                let mut idb = vec![0u8; p.len()];
+                idb[0] = 0xc0;
+                let with = if *identity { hex::encode(&idb[..*bytes]) } else { hx[..2 * bytes].to_string() };
+                cls = format!("json-hex:{}", if *identity { "identity-prefix" } else { "prefix" });
                 let txt = String::from_utf8(enc.clone()).unwrap();
                 if !txt.contains(&hx) {
                     panic!("cannot locate point #{} in the JSON encoding of {}", pos, tn);
